@@ -270,25 +270,34 @@ class C13(Prop):
             return Outcome.skip('not_optimal', labels)
         x, y0, Y, raw = D.read_solution(c, h)
         if c['ny']:
-            for g in ev:
-                for s in g[1:]:
-                    if not np.allclose(y0[s], y0[g[0]], atol=1e-9) or not np.allclose(Y[s], Y[g[0]], atol=1e-9):
-                        return Outcome.fail('event_constant', 'scenarios %d and %d are in one declared event but get different decisions %s vs %s' % (
-                            g[0], s, y0[g[0]].tolist(), y0[s].tolist()), labels)
+            ny1 = c['ny'] - c.get('ny2', 0)
+            for grp_no, (lo_, hi_) in enumerate(((0, ny1), (ny1, c['ny']))):
+                if hi_ == lo_:
+                    continue
+                _, ev_g = D.event_index(c, grp_no)
+                for g in ev_g:
+                    for s in g[1:]:
+                        if not np.allclose(y0[s, lo_:hi_], y0[g[0], lo_:hi_], atol=1e-9) or not np.allclose(Y[s, lo_:hi_], Y[g[0], lo_:hi_], atol=1e-9):
+                            return Outcome.fail('event_constant', 'scenarios %d and %d are in one declared event but get different decisions %s vs %s' % (
+                                g[0], s, y0[g[0], lo_:hi_].tolist(), y0[s, lo_:hi_].tolist()), labels)
             mask = np.array(c['ymask']).reshape(c['ny'], c['nz'] + c['nu']).astype(bool)
             if mask.any():
                 import pandas as pd
-                for key, off, n in (('Y0', 0, c['nz']), ('Y%d' % c['nz'], c['nz'], c['nu'])):
-                    if key not in raw:
-                        continue
-                    g = raw[key]
-                    for s in range(S):
-                        gs = g[h['labels'][s]] if isinstance(g, pd.Series) else g
-                        pat = np.isnan(np.array(gs, dtype=float).reshape(c['ny'], n))
-                        if not np.array_equal(pat, ~mask[:, off:off + n]):
-                            return Outcome.fail('nan_pattern:dro', 'coefficients of scenario %d are NaN at %s, declared mask %s' % (
-                                s, pat.astype(int).tolist(), mask[:, off:off + n].astype(int).tolist()), labels)
+                for tag, lo_, hi_ in (('a', 0, ny1), ('b', ny1, c['ny'])):
+                    for off, n in ((0, c['nz']), (c['nz'], c['nu'])):
+                        key = 'Y%s%d' % (tag, off)
+                        if key not in raw or not n:
+                            continue
+                        g = raw[key]
+                        for s in range(S):
+                            gs = g[h['labels'][s]] if isinstance(g, pd.Series) else g
+                            pat = np.isnan(np.array(gs, dtype=float).reshape(hi_ - lo_, n))
+                            if not np.array_equal(pat, ~mask[lo_:hi_, off:off + n]):
+                                return Outcome.fail('nan_pattern:dro', 'coefficients of scenario %d are NaN at %s, declared mask %s' % (
+                                    s, pat.astype(int).tolist(), mask[lo_:hi_, off:off + n].astype(int).tolist()), labels)
                 labels.append('affine_mask:' + ('full' if mask.all() else 'partial'))
+            if c.get('ny2'):
+                labels.append('two_adaptive_groups')
         ref, info = D.reference_optimum(c)
         if ref is None:
             return Outcome.inconclusive('reference', labels)
